@@ -14,6 +14,8 @@ Due(now) == nextDate # 0 /\ now >= nextDate
 Pruned(cr) == IF MaxFiles = 0 \/ Len(cr) < MaxFiles THEN cr ELSE SubSeq(cr, Len(cr) - (MaxFiles - 1) + 1, Len(cr))
 SetOf(q) == {q[i] : i \in DOMAIN q}
 Restrict(f, S) == [k \in (DOMAIN f) \cap S |-> f[k]]
+\* total lookups: after a rejected step the state follows the observation, which need not be consistent with `created`
+Fl(j) == IF j \in DOMAIN files THEN files[j] ELSE << >>
 
 Reset(r) == LET p == r.p k0 == IF r.p = 0 THEN 0 ELSE r.t0 \div r.p IN
             /\ P' = p /\ MaxFiles' = r.max_files /\ cur' = k0 /\ nextDate' = (IF p = 0 THEN 0 ELSE (k0 + 1) * p)
@@ -52,13 +54,13 @@ RotOk(r, k) ==
       kept == Pruned(created) base == Restrict(files, SetOf(kept))
       oldk == IF k \in DOMAIN base THEN base[k] ELSE << >> IN
   /\ DOMAIN o = SetOf(kept) \cup {k}                                        \* exactly one rotation's worth of pruning
-  /\ \A j \in DOMAIN o : j \notin {k, cur} => obsSeq(j) = base[j]
+  /\ \A j \in DOMAIN o : j \notin {k, cur} => j \in DOMAIN base /\ obsSeq(j) = base[j]
   /\ IsPrefix(oldk, obsSeq(k)) /\ Distinct(Suffix(obsSeq(k), oldk)) /\ SetOf(Suffix(obsSeq(k), oldk)) \subseteq ids
   /\ (cur \in DOMAIN o /\ cur # k =>
-         /\ IsPrefix(files[cur], obsSeq(cur)) /\ Distinct(Suffix(obsSeq(cur), files[cur]))
-         /\ SetOf(Suffix(obsSeq(cur), files[cur])) \subseteq ids
-         /\ SetOf(Suffix(obsSeq(cur), files[cur])) \cap SetOf(Suffix(obsSeq(k), oldk)) = {}
-         /\ SetOf(Suffix(obsSeq(cur), files[cur])) \cup SetOf(Suffix(obsSeq(k), oldk)) = ids)
+         /\ IsPrefix(Fl(cur), obsSeq(cur)) /\ Distinct(Suffix(obsSeq(cur), Fl(cur)))
+         /\ SetOf(Suffix(obsSeq(cur), Fl(cur))) \subseteq ids
+         /\ SetOf(Suffix(obsSeq(cur), Fl(cur))) \cap SetOf(Suffix(obsSeq(k), oldk)) = {}
+         /\ SetOf(Suffix(obsSeq(cur), Fl(cur))) \cup SetOf(Suffix(obsSeq(k), oldk)) = ids)
   /\ (cur \notin DOMAIN o \/ cur = k => SetOf(Suffix(obsSeq(k), oldk)) \subseteq ids /\ (cur \in DOMAIN o => SetOf(Suffix(obsSeq(k), oldk)) = ids))
 RaceOk(r) ==
   LET ids == SetOf(r.ids) o == ObsFn(r)
@@ -68,7 +70,7 @@ RaceOk(r) ==
      ELSE
        /\ DOMAIN o = DOMAIN files
        /\ \A j \in DOMAIN o : j # cur => obsSeq(j) = files[j]
-       /\ IsPrefix(files[cur], obsSeq(cur)) /\ Distinct(Suffix(obsSeq(cur), files[cur])) /\ SetOf(Suffix(obsSeq(cur), files[cur])) = ids
+       /\ IsPrefix(Fl(cur), obsSeq(cur)) /\ Distinct(Suffix(obsSeq(cur), Fl(cur))) /\ SetOf(Suffix(obsSeq(cur), Fl(cur))) = ids
 RaceEffect(r) ==
   LET o == ObsFn(r)
       k == IF \E j \in Cands(r) : RotOk(r, j) THEN CHOOSE j \in Cands(r) : RotOk(r, j) ELSE Period(r.now) IN
